@@ -200,6 +200,44 @@ func unroutedRequest(g *hostile) *http.Request {
 	return rawRequest("GET", h+".nosuch.test", p)
 }
 
+// a request to an upstream behind a rewrite route "^(.*)\.apps\.example\.test$": the start of the host is
+// the client's choice. A host with markup comes in an absolute-form request target (any bytes net/url
+// lets through, markup first) and the path matches skip_auth_regex; a host made of bytes net/http allows in
+// a Host header goes there, with a session sealed for exactly that host.
+func (w *world) rewriteFault(pw *c.ProxyWorld, g *hostile) *httptest.ResponseRecorder {
+	all := strings.Join(g.l, "")
+	q := "?q=" + qe(g.next())
+	hraw := ""
+	for _, ch := range []byte(all) {
+		if len(hraw) < 60 && ch > 0x20 && ch < 0x7f && strings.IndexByte("/?#@\\[]:%^|`{}", ch) < 0 {
+			hraw += string(ch)
+		}
+	}
+	// absolute-form whenever the host carries bytes a Host header may not (markup), else Host header + session
+	if !validHost(hraw) {
+		h := hraw
+		host := h + ".apps.example.test"
+		if _, err := url.Parse("http://" + host + "/"); err == nil {
+			return wireOf(pw, w.proxyHandler(pw)).roundTrip(rawRequest(faultMethods[curSalt%5], "front.example.test", "http://"+host+"/open/"+qe(g.next())+q))
+		}
+	}
+	h := ""
+	for _, ch := range []byte(all) {
+		if len(h) < 40 && validHost(string(ch)) && ch != ':' && ch != '[' && ch != ']' && ch != '%' {
+			h += string(ch)
+		}
+	}
+	host := strings.ToLower(h) + ".apps.example.test"
+	req := rawRequest(faultMethods[curSalt%5], host, "/page/"+qe(g.next())+q)
+	sess := &sessions.SessionState{
+		ProviderSlug: "google", ProviderType: "sso", Email: "u" + tokenOf(g.next()) + "@corp.test", User: g.next(), Groups: []string{g.next()},
+		AccessToken: "at", RefreshToken: "rt", AuthorizedUpstream: host,
+		LifetimeDeadline: time.Now().Add(24 * time.Hour), RefreshDeadline: time.Now().Add(2 * time.Hour), ValidDeadline: time.Now().Add(2 * time.Hour),
+	}
+	req.AddCookie(&http.Cookie{Name: pw.CookieName, Value: pw.Seal(sess)})
+	return wireOf(pw, w.proxyHandler(pw)).roundTrip(req)
+}
+
 var faultMethods = []string{"GET", "POST", "PUT", "DELETE", "PATCH", "HEAD"}
 
 // an authenticated request (valid session for the host, e-mail accepted by the policy) with markup
@@ -318,6 +356,18 @@ var proxySites = []pSite{
 	{name: "request: authenticated, upstream slower than the upstream timeout -> 503 with the TimeoutHandler message (reverse_proxy.go:219)", want: 503, static: true, bare: true, few: true,
 		run: func(w *world, g *hostile, xhr bool) (*httptest.ResponseRecorder, *errData) {
 			return w.upstreamFault(w.proxySlow, g, xhr), nil
+		}},
+	{name: "REWRITE-route upstream (regexp leaves the start of the host free), hostile host absolute-form or in the Host header, skip_auth path or session for that host: upstream refuses the connection -> bare 502", want: 502, static: true, bare: true,
+		run: func(w *world, g *hostile, xhr bool) (*httptest.ResponseRecorder, *errData) {
+			return w.rewriteFault(w.proxyRwRefuse, g), nil
+		}},
+	{name: "REWRITE-route upstream, hostile host: upstream resets the connection -> bare 502", want: 502, static: true, bare: true,
+		run: func(w *world, g *hostile, xhr bool) (*httptest.ResponseRecorder, *errData) {
+			return w.rewriteFault(w.proxyRwRst, g), nil
+		}},
+	{name: "REWRITE-route upstream, hostile host: upstream slower than the upstream timeout -> 503 with the TimeoutHandler message, no declared type (net/http sniffs the body) (reverse_proxy.go:219)", want: 503, static: true, bare: true, few: true,
+		run: func(w *world, g *hostile, xhr bool) (*httptest.ResponseRecorder, *errData) {
+			return w.rewriteFault(w.proxyRwSlow, g), nil
 		}},
 	{name: "sso-proxy, host without a route (Host header, or absolute-form target carrying any bytes) -> hostmux 421 Misdirected Request (hostmux.go:18)", want: 421, static: true, bare: true,
 		run: func(w *world, g *hostile, xhr bool) (*httptest.ResponseRecorder, *errData) {
